@@ -515,3 +515,34 @@ def translate_methods() -> tuple[str, dict]:
 
 
 GEN['RotMethods_gen'] = translate_methods
+
+
+# =============================================================================================== matrix copies / conversions
+COPY_METHODS = [('Matrix', 'copy', 'CCopy'), ('FrozenMatrix', 'copy', 'CCopy'), ('Matrix', '__deepcopy__', 'CDeepcopy'),
+                ('FrozenMatrix', '__deepcopy__', 'CDeepcopy'), ('Matrix', 'freeze', 'CFreeze'), ('FrozenMatrix', 'thaw', 'CThaw'),
+                ('Matrix', '_new_copy', 'CNewCopy'), ('FrozenMatrix', '_new_copy', 'CNewCopy')]
+
+
+def translate_copies() -> tuple[str, dict]:
+    """copy / __deepcopy__ / freeze / thaw / _new_copy of the two matrix classes, each classified by symbolic execution
+    (translate/c04_formulas.py: classify_copy): `return self`, or a new matrix with the receiver's nine slots field for field
+    (anything else fails closed)."""
+    tree = ast.parse(src_text('math.py'))
+    C = tr.Classes(tree)
+    F = {'copy_kind': {}}
+    rows, side = [], []
+    for cls, meth, coq in COPY_METHODS:
+        for a in C.cls[cls].body:       # `__copy__ = copy` style aliases are fine; an assignment to the method itself is not
+            if isinstance(a, ast.Assign) and any(isinstance(t, ast.Name) and t.id == meth for t in a.targets):
+                raise TranslateError(f'{cls}.{meth} is assigned, not defined')
+        how, k = tr.classify_copy(C, F, cls, meth)
+        rows.append(f'  CRow {"true" if cls == "FrozenMatrix" else "false"} {coq} {"true" if how == "alias" else "false"} '
+                    f'{"true" if k == "FrozenMatrix" else "false"}')
+        side.append({'method': f'{cls}.{meth}', 'returns': how, 'class': k})
+    out = ['(* GENERATED by translate/c04_inplace.py from src/srctools/math.py (matrix copies). Do not edit. *)',
+           'From Coq Require Import List.', 'From SV Require Import Rot.RotCopies.', 'Import ListNotations.', '',
+           'Definition copy_table : list crow := [', ';\n'.join(rows), '].', '']
+    return '\n'.join(out), {'rows': side}
+
+
+GEN['RotCopies_gen'] = translate_copies
